@@ -127,7 +127,7 @@ def check(case) -> Result:
             res.bad('C16/prefix-differs', f'{desc}: time axis differs from the un-stopped run')
         # the comparison recomputed from the stopped run's own series
         own = s.get(target, var)
-        if kexp is not None and not tie_exact:
+        if kexp is not None and not tie_exact and own is not None and len(own) == s.n:
             if any(_cmp(op, own[k], thr_si) for k in range(1, s.n - 1)) or not _cmp(op, own[s.n - 1], thr_si):
                 res.bad(f'C16/comparison-inconsistent/{op}', f'{desc}: recorded readings {list(map(float, own))}')
     res.nontrivial = kexp is not None and 1 < kexp < u.n - 1
